@@ -6,6 +6,7 @@ Actions ==
   \cup {[op |-> "NewSink", kind |-> "closure", stop |-> s] : s \in Stops}
   \cup {[op |-> "NewSink", kind |-> k, stop |-> 0] : k \in {"vec", "extend"}}
   \cup {[op |-> "Feed", via |-> v] : v \in {"feed_into", "feed_into_mut", "extend"}}
+  \cup {[op |-> "FeedRef", via |-> v] : v \in {"feed_ref", "extend_ref"}}
   \cup {[op |-> "Wrap"], [op |-> "DropWrap"], [op |-> "FeedWrapped"]}
   \cup {[op |-> "Next", through |-> t] : t \in {"wrapper", "direct"}}
 Next == \E e \in Actions : Do(e)
